@@ -3,14 +3,25 @@
 
   Model: `Stab.Retry` (attempt counter of a RunTask followed through
   handle_exception → copy_with_attempts → push_message → poll_one → deserialize_message,
-  plus the stage context written in the same commit as the retry / polling message).
+  plus the stage context written in the same commit as the retry / polling message, plus the rows a dead
+  worker leaves behind after a committed delivery).
 
-  * `Variant.current` is the repository as found.  For it the bound is FALSE
-    (`retry_unbounded_current`, `retry_bounded_fails_current`): finding F1.
-  * `Variant.fixed` is the repository with proposed_fixes/F1.diff.  For it the bound holds for
-    every schedule of deliveries and processor-level redeliveries (`retry_bounded`), is reached
-    exactly (`retry_limit_reached`), and polling stays unbounded (`polling_unbounded_fixed`).
-  * The context theorems hold for both variants.
+  `Variant.fixed` is the repository as it is (repairs of F1 and F12 included).  All property theorems are about it,
+  for EVERY schedule of
+      handle      deliver, run the handler, ack
+      drop        deliver, the handler raises before committing / the worker dies: processor-level redelivery
+      lose        deliver, the handler commits, the worker dies before the processor's mark and the ack
+      redeliver k a row left behind by `lose` comes back: it is acknowledged without running the handler, because
+                  every RunTask commit marks its source message (F12 repair; duplicate check: C09)
+  The section "before the F1 repair" keeps, clearly apart, what was false of the old code (`Variant.legacy`).
+
+  Vocabulary (defined in `Stab/Lemmas/C14.lean`, repeated here for the reader)
+    `AlwaysFails sc   := ∀ n, ∃ u, sc.at n = .failT u`      the task raises TransientError on every execution
+    `AlwaysRunning sc := ∀ n, ∃ u, sc.at n = .running u`    the task answers RUNNING on every execution
+    `limit e          := if e.dfltMax = 0 then 10 else e.dfltMax`   what `message.max_attempts or 10` evaluates to:
+                      the dataclass default (10), since neither payload field nor column is read back
+    `updOf act`       the context update an execution hands to the engine
+    `ctxAfter sc c n` `c ⊕ update_1 ⊕ … ⊕ update_n` (`ctxAfter_eq_foldl`: it is the left fold of `merge`)
 -/
 import Stab.Model.Retry
 import Stab.Lemmas.C14
@@ -18,101 +29,59 @@ import Stab.Lemmas.C14
 namespace Stab.Props.C14
 open Stab Stab.Retry
 
-/-! ### vocabulary (defined in `Stab/Lemmas/C14.lean`, repeated here for the reader)
+/-! ### bounded retries -/
 
-  `AlwaysFails sc   := ∀ n, ∃ u, sc.at n = .failT u`      the task raises TransientError on every execution
-  `AlwaysRunning sc := ∀ n, ∃ u, sc.at n = .running u`    the task answers RUNNING on every execution
-  `seenMax e r`     the limit `handle_exception` reads off a message delivered from row `r`:
-                    `message.max_attempts or 10`, where `message.max_attempts` is the dataclass default 10
-                    unless the environment copies the row's column back (`e.restoreMax`)
-  `limit e m := seenMax e (initRow m)`                    the limit in force for a chain whose first RunTask has `max_attempts = m`
-  `updOf act`       the context update an execution hands to the engine
-  `ctxAfter sc c n` `c ⊕ update_1 ⊕ … ⊕ update_n` (`ctxAfter_eq_foldl`: it is the left fold of `merge`)
--/
-
-/-! ### F1: the code as found retries forever -/
-
-/-- **F1 (counterexample to the bound, code as found).** Whatever the limit is (as long as it is
-    at least 3 — the default is 10), a task that always fails transiently is executed `n` times by
-    `n` deliveries, for EVERY `n`, and is still scheduled for another retry: there is no bound. -/
-theorem retry_unbounded_current (e : Env) (hq : 0 < e.qmax) (m : Nat) (hm : 3 ≤ limit e m)
-    (sc : Script) (hf : AlwaysFails sc) (c : Ctx) (n : Nat) :
-    let s := run .current e sc (init m c) (List.replicate n .handle)
-    s.execs = n ∧ s.done = none ∧ ∃ r, s.row = some r ∧ r.attempts = 0 := by
-  have gen : ∀ (n k : Nat) (s : State), CurInv e (limit e m) s k →
-      CurInv e (limit e m) (run .current e sc s (List.replicate n .handle)) (k + n) := by
-    intro n
-    induction n with
-    | zero => intro k s h; simpa [run] using h
-    | succ n ih =>
-      intro k s h
-      have := ih (k + 1) _ (cur_step e hq _ hm sc hf s k h)
-      simpa [List.replicate_succ, run, Nat.add_assoc, Nat.add_comm 1 n] using this
-  have h0 : CurInv e (limit e m) (init m c) 0 := ⟨rfl, rfl, initRow m, rfl, rfl, rfl⟩
-  obtain ⟨h1, h2, r, h3, h4, _⟩ := gen n 0 _ h0
-  exact ⟨by simpa using h1, h2, r, h3, h4⟩
-
-/-- the bound of `retry_bounded`, instantiated for the code as found with the default limit 10, is false:
-    11 deliveries execute the task 11 times (the harness replays exactly this against the engine) -/
-theorem retry_bounded_fails_current :
-    ¬ (∀ ops : List Op, (run .current ⟨10, false⟩ ⟨[], .failT []⟩ (init 10 []) ops).execs ≤ limit ⟨10, false⟩ 10) := by
-  intro h
-  have := h (List.replicate 11 .handle)
-  revert this
-  decide
-
-/-! ### the repaired code: bounded for every schedule -/
-
-/-- **Bounded retries (repaired code).** For every limit, every queue limit, every schedule of
-    deliveries (`handle`) and processor-level redeliveries (`drop`), and every task that fails
+/-- **Bounded retries.** For every limit, every queue limit, every schedule of deliveries, processor-level
+    redeliveries, lost acknowledgements and redeliveries of left-behind rows, and every task that fails
     transiently on every execution (with arbitrary context updates): the task is executed at most
-    `max_attempts` times. -/
-theorem retry_bounded (e : Env) (m : Nat) (sc : Script) (hf : AlwaysFails sc) (c : Ctx) (ops : List Op) :
-    (run .fixed e sc (init m c) ops).execs ≤ limit e m := by
-  have gen : ∀ (ops : List Op) (s : State), FixInv e (limit e m) s →
-      FixInv e (limit e m) (run .fixed e sc s ops) := by
+    `max_attempts` times. (Since the F12 repair a redelivered, already re-queued RunTask is a duplicate-check
+    no-op, so such schedules are covered without any side condition.) -/
+theorem retry_bounded (e : Env) (sc : Script) (hf : AlwaysFails sc) (c : Ctx) (ops : List Op) :
+    (run .fixed e sc (init e c) ops).execs ≤ limit e := by
+  have gen : ∀ (ops : List Op) (s : State), FixInv (limit e) s → FixInv (limit e) (run .fixed e sc s ops) := by
     intro ops
     induction ops with
     | nil => intro s h; simpa [run] using h
-    | cons op ops ih => intro s h; exact ih _ (fix_step e _ sc hf s op h)
-  have h0 : FixInv e (limit e m) (init m c) := by
+    | cons op ops ih => intro s h; exact ih _ (fix_step e sc hf s op h)
+  have h0 : FixInv (limit e) (init e c) := by
     refine ⟨Nat.zero_le _, ?_⟩
     intro r hr
     simp only [init, Option.some.injEq] at hr
     subst hr
-    exact ⟨Nat.le_refl _, limit_pos e m, rfl⟩
+    exact ⟨Nat.le_refl _, limit_pos e⟩
   exact (gen ops _ h0).1
 
-/-- **The limit is reached and is terminal (repaired code).** With the queue's own limit not below
-    the message's, `n ≥ max_attempts` straight deliveries of an always-failing task execute it exactly
-    `max_attempts` times, after which `CompleteTask(TERMINAL)` has been pushed (the task's terminal
-    failure status) and no RunTask is left. -/
-theorem retry_limit_reached (e : Env) (m : Nat) (hq : limit e m ≤ e.qmax) (sc : Script) (hf : AlwaysFails sc)
-    (c : Ctx) (n : Nat) (hn : limit e m ≤ n) :
-    let s := run .fixed e sc (init m c) (List.replicate n .handle)
-    s.execs = limit e m ∧ s.done = some .terminal ∧ s.row = none := by
-  have gen : ∀ (n k : Nat) (s : State), k < limit e m → FixAt e (limit e m) s k → limit e m ≤ k + n →
-      Final (limit e m) (run .fixed e sc s (List.replicate n .handle)) := by
+/-- **The limit is reached and is terminal.** With the queue's own limit not below the message's,
+    `n ≥ max_attempts` straight deliveries of an always-failing task execute it exactly `max_attempts` times,
+    after which `CompleteTask(TERMINAL)` has been pushed (the task's terminal failure status) and no RunTask is
+    left; nothing that happens afterwards changes that. -/
+theorem retry_limit_reached (e : Env) (hq : limit e ≤ e.qmax) (sc : Script) (hf : AlwaysFails sc)
+    (c : Ctx) (n : Nat) (hn : limit e ≤ n) (later : List Op) :
+    let s := run .fixed e sc (run .fixed e sc (init e c) (List.replicate n .handle)) later
+    s.execs = limit e ∧ s.done = some .terminal ∧ s.row = none := by
+  have gen : ∀ (n k : Nat) (s : State), k < limit e → FixAt s k → limit e ≤ k + n →
+      Final (limit e) (run .fixed e sc s (List.replicate n .handle)) := by
     intro n
     induction n with
     | zero => intro k s hk _ hle; omega
     | succ n ih =>
       intro k s hk h hle
-      obtain ⟨hA, hB⟩ := fixAt_step e _ hq sc hf s k hk h
+      obtain ⟨hA, hB⟩ := fixAt_step e hq sc hf s k hk h
       simp only [List.replicate_succ, run]
-      by_cases hlt : k + 1 < limit e m
+      by_cases hlt : k + 1 < limit e
       · exact ih (k + 1) _ hlt (hA hlt) (by omega)
       · exact final_stable _ e sc _ (hB hlt) _
-  have h0 : FixAt e (limit e m) (init m c) 0 := ⟨rfl, rfl, initRow m, rfl, rfl, rfl⟩
-  exact gen n 0 _ (limit_pos e m) h0 (by omega)
+  have h0 : FixAt (init e c) 0 := ⟨rfl, rfl, initRow e, rfl, rfl⟩
+  exact final_stable _ e sc _ (gen n 0 _ (limit_pos e) h0 (by omega)) later
 
 /-! ### saved progress -/
 
 /-- **Progress is visible.** For every task (any mix of transient failures with updates, RUNNING
-    answers with context, success, permanent failure), every schedule of deliveries and redeliveries,
-    both code variants: execution number `i+1` sees `ctx ⊕ update_1 ⊕ … ⊕ update_i`. -/
-theorem progress_visible (v : Variant) (e : Env) (m : Nat) (sc : Script) (c : Ctx) (ops : List Op) :
-    let s := run v e sc (init m c) ops
+    answers with context, success, permanent failure) and every schedule (including lost acknowledgements and
+    redelivered left-behind rows): execution number `i+1` sees `ctx ⊕ update_1 ⊕ … ⊕ update_i` — in particular
+    no execution ever sees a context that misses an update recorded before it, and none is repeated on stale state. -/
+theorem progress_visible (v : Variant) (e : Env) (sc : Script) (c : Ctx) (ops : List Op) :
+    let s := run v e sc (init e c) ops
     s.seen = (List.range s.execs).map (ctxAfter sc c) := by
   have gen : ∀ (ops : List Op) (s : State), CtxInv sc c s → CtxInv sc c (run v e sc s ops) := by
     intro ops
@@ -122,35 +91,40 @@ theorem progress_visible (v : Variant) (e : Env) (m : Nat) (sc : Script) (c : Ct
   exact (gen ops _ ⟨rfl, fun _ => rfl⟩).1
 
 /-- the same, element by element, with the fold spelled out -/
-theorem progress_visible_nth (v : Variant) (e : Env) (m : Nat) (sc : Script) (c : Ctx) (ops : List Op) (i : Nat)
-    (hi : i < (run v e sc (init m c) ops).execs) :
-    (run v e sc (init m c) ops).seen[i]? =
+theorem progress_visible_nth (v : Variant) (e : Env) (sc : Script) (c : Ctx) (ops : List Op) (i : Nat)
+    (hi : i < (run v e sc (init e c) ops).execs) :
+    (run v e sc (init e c) ops).seen[i]? =
       some (((List.range i).map (fun j => updOf (sc.at j))).foldl merge c) := by
-  have h := progress_visible v e m sc c ops
+  have h := progress_visible v e sc c ops
   simp only at h
   rw [h, ← ctxAfter_eq_foldl]
   simp [hi]
 
+/-- **A redelivered, already re-queued RunTask does nothing** (F12 repair): the row a dead worker left behind
+    after a committed delivery is acknowledged without executing the task; executions, contexts seen, durable
+    context, the live RunTask and the completion status are untouched. -/
+theorem redelivery_of_requeued_is_noop (v : Variant) (e : Env) (sc : Script) (s : State) (k : Nat) :
+    let s' := (step v e sc s (.redeliver k)).1
+    s'.execs = s.execs ∧ s'.seen = s.seen ∧ s'.ctx = s.ctx ∧ s'.row = s.row ∧ s'.done = s.done := by
+  obtain ⟨h1, h2, h3, h4, h5⟩ := redeliver_core e s k
+  exact ⟨h3, h4, h2, h1, h5⟩
+
 /-- **A RUNNING answer keeps the saved context and stays scheduled** (one delivery, any state):
     the context is `ctx ⊕ result.context`, nothing is completed, and a RunTask row with the message's
-    limit is queued again (with a fresh attempt count in the repaired code). -/
-theorem poll_keeps_context (v : Variant) (e : Env) (sc : Script) (s : State) (r : Row) (u : Ctx)
+    limit and a fresh attempt count is queued again. -/
+theorem poll_keeps_context (e : Env) (sc : Script) (s : State) (r : Row) (u : Ctx)
     (hr : s.row = some r) (hq : r.attempts < e.qmax) (ha : sc.at s.execs = .running u) :
-    let s' := (step v e sc s .handle).1
+    let s' := (step .fixed e sc s .handle).1
     s'.ctx = merge s.ctx u ∧ s'.done = s.done ∧ s'.execs = s.execs + 1 ∧
-      ∃ r2, s'.row = some r2 ∧ r2.maxCol = (delivered e r).maxAttempts ∧ (v = .fixed → r2.attempts = 0) := by
+      ∃ r2, s'.row = some r2 ∧ r2.maxCol = (delivered e r).maxAttempts ∧ r2.attempts = 0 := by
   rw [step_handle _ _ _ _ r hr hq]
   simp only [handleMsg, ha]
-  refine ⟨trivial, trivial, trivial, _, rfl, ?_, ?_⟩
-  · cases v <;> rfl
-  · intro hv
-    subst hv
-    rfl
+  exact ⟨trivial, trivial, trivial, _, rfl, rfl, rfl⟩
 
-/-- the repair does not bound polling: a task answering RUNNING is re-run as often as it is delivered -/
-theorem polling_unbounded_fixed (e : Env) (hq : 0 < e.qmax) (m : Nat) (sc : Script) (hf : AlwaysRunning sc)
+/-- polling is not bounded by the retry limit: a task answering RUNNING is re-run as often as it is delivered -/
+theorem polling_unbounded (e : Env) (hq : 0 < e.qmax) (sc : Script) (hf : AlwaysRunning sc)
     (c : Ctx) (n : Nat) :
-    let s := run .fixed e sc (init m c) (List.replicate n .handle)
+    let s := run .fixed e sc (init e c) (List.replicate n .handle)
     s.execs = n ∧ s.done = none ∧ ∃ r, s.row = some r ∧ r.attempts = 0 := by
   have gen : ∀ (n k : Nat) (s : State),
       (s.execs = k ∧ s.done = none ∧ ∃ r, s.row = some r ∧ r.attempts = 0) →
@@ -168,20 +142,47 @@ theorem polling_unbounded_fixed (e : Env) (hq : 0 < e.qmax) (m : Nat) (sc : Scri
         simp only [handleMsg, hu]
         exact ⟨by simp [hx], hd, _, rfl, rfl⟩)
       simpa [List.replicate_succ, run, Nat.add_assoc, Nat.add_comm 1 n] using this
-  simpa using gen n 0 (init m c) ⟨rfl, rfl, initRow m, rfl, rfl⟩
+  simpa using gen n 0 (init e c) ⟨rfl, rfl, initRow e, rfl, rfl⟩
+
+/-! ### before the F1 repair (`Variant.legacy`): kept as a record of finding F1, not a property of the code -/
+
+/-- LEGACY (before commit "transient retries carry their attempt count through the queue"): whatever the limit
+    (at least 3 — the default is 10), a task that always fails transiently was executed `n` times by `n`
+    deliveries, for EVERY `n`, and was still scheduled for another retry. -/
+theorem legacy_retry_unbounded (e : Env) (hq : 0 < e.qmax) (hm : 3 ≤ limit e)
+    (sc : Script) (hf : AlwaysFails sc) (c : Ctx) (n : Nat) :
+    let s := run .legacy e sc (init e c) (List.replicate n .handle)
+    s.execs = n ∧ s.done = none ∧ ∃ r, s.row = some r ∧ r.attempts = 0 := by
+  have gen : ∀ (n k : Nat) (s : State), LegacyInv s k →
+      LegacyInv (run .legacy e sc s (List.replicate n .handle)) (k + n) := by
+    intro n
+    induction n with
+    | zero => intro k s h; simpa [run] using h
+    | succ n ih =>
+      intro k s h
+      have := ih (k + 1) _ (legacy_step e hq hm sc hf s k h)
+      simpa [List.replicate_succ, run, Nat.add_assoc, Nat.add_comm 1 n] using this
+  have h0 : LegacyInv (init e c) 0 := ⟨rfl, rfl, initRow e, rfl, rfl⟩
+  obtain ⟨h1, h2, r, h3, h4⟩ := gen n 0 _ h0
+  exact ⟨by simpa using h1, h2, r, h3, h4⟩
 
 /-! ### non-vacuity -/
 
 -- an always-failing task exists, and the default configuration satisfies the hypotheses
 example : AlwaysFails ⟨[], .failT [(1, 5)]⟩ := fun _ => ⟨[(1, 5)], by simp [Script.at]⟩
-example : limit ⟨10, false⟩ 10 = 10 ∧ limit ⟨10, false⟩ 10 ≤ (⟨10, false⟩ : Env).qmax := by decide
+example : limit ⟨10, 10⟩ = 10 ∧ limit ⟨10, 10⟩ ≤ (⟨10, 10⟩ : Env).qmax := by decide
 -- the bound is tight: exactly 10 executions, then TERMINAL
-example : (run .fixed ⟨10, false⟩ ⟨[], .failT [(1, 5)]⟩ (init 10 []) (List.replicate 12 .handle)).execs = 10 := by decide
-example : (run .fixed ⟨10, false⟩ ⟨[], .failT [(1, 5)]⟩ (init 10 []) (List.replicate 12 .handle)).done = some .terminal := by decide
+example : (run .fixed ⟨10, 10⟩ ⟨[], .failT [(1, 5)]⟩ (init ⟨10, 10⟩ []) (List.replicate 12 .handle)).execs = 10 := by decide
+example : (run .fixed ⟨10, 10⟩ ⟨[], .failT [(1, 5)]⟩ (init ⟨10, 10⟩ []) (List.replicate 12 .handle)).done = some .terminal := by decide
 -- redeliveries use up budget: 3 drops + deliveries -> 7 executions
-example : (run .fixed ⟨10, false⟩ ⟨[], .failT []⟩ (init 10 []) ([.drop, .drop, .drop] ++ List.replicate 12 .handle)).execs = 7 := by decide
+example : (run .fixed ⟨10, 10⟩ ⟨[], .failT []⟩ (init ⟨10, 10⟩ []) ([.drop, .drop, .drop] ++ List.replicate 12 .handle)).execs = 7 := by decide
+-- lost acks and redelivered left-behind rows do not add executions
+example : (run .fixed ⟨10, 10⟩ ⟨[], .failT []⟩ (init ⟨10, 10⟩ [])
+    ([.lose, .redeliver 0, .lose, .lose, .redeliver 1, .redeliver 0] ++ List.replicate 12 .handle)).execs = 10 := by decide
+-- the legacy code ran an 11th time with the default limit
+example : (run .legacy ⟨10, 10⟩ ⟨[], .failT []⟩ (init ⟨10, 10⟩ []) (List.replicate 11 .handle)).execs = 11 := by decide
 -- progress: third execution sees both updates, later one wins per key
-example : (run .fixed ⟨10, false⟩ ⟨[.failT [(1, 5)], .running [(1, 6), (2, 7)]], .succeed []⟩ (init 10 [(0, 1)])
-    [.handle, .handle, .handle]).seen = [[(0, 1)], [(0, 1), (1, 5)], [(0, 1), (1, 6), (2, 7)]] := by decide
+example : (run .fixed ⟨10, 10⟩ ⟨[.failT [(1, 5)], .running [(1, 6), (2, 7)]], .succeed []⟩ (init ⟨10, 10⟩ [(0, 1)])
+    [.handle, .lose, .redeliver 0, .handle]).seen = [[(0, 1)], [(0, 1), (1, 5)], [(0, 1), (1, 6), (2, 7)]] := by decide
 
 end Stab.Props.C14
